@@ -214,7 +214,7 @@ def _pspecs():
             assumptions=FS_ASSUME + ["the whole-pipeline text is compared between fresh processes (byte equality modulo the `Generated at:` line); equality with the model's single output is added by the project-level correspondence (see DESIGN.md)"],
             rule="random multi-file projects (2..6 files, nested directories, commands/structs/enums/events/channels spread over files) x both modes; each generated in N fresh processes "
                  "(quick 8, thorough 40; every process has fresh hash seeds) into fresh directories; plus --verbose, --visualize-deps (twice), layout noise + decoy items/files, item reordering, "
-                 "moving items between files and merging files; non-trivial = every case (>=2 files); distinct = (project seed, mode, transformation)",
+                 "moving items between files and merging files; non-trivial = every case (>=2 files); distinct = (project seed, mode, transformation); layouts with the same file name in several directories; white-space-only rewriting (CRLF, tabs, trailing blanks); items moved into dist / node_modules / build / .cache / vendor; commands naming many long non-ASCII types, quiet vs --verbose; a mapping table with qualified keys sharing a last segment",
             exhaustive={"quick": False, "thorough": False},
         ),
         "C14": dict(
@@ -231,7 +231,7 @@ def _pspecs():
             assumptions=FS_ASSUME + ["a failing write of the cache record itself is covered by the theorems only (after invalidate-first no static obstacle makes exactly that write fail)",
                                      "crash points are covered by the theorem C17_every_prefix; the real binary is not killed mid-run"],
             rule="for every operation of the plan that an obstacle can make fail (output path, types.ts, commands.ts, events.ts, index.ts, dependency-graph.txt/.dot with visualisation on): the fault in a first run, in a run after an output-changing edit, "
-                 "and with the edit reverted before the recovery run; both paths; thorough adds double faults and a second reverted aspect; every history ends with recovery runs compared with a fresh generation; non-trivial = all; distinct = history",
+                 "and with the edit reverted before the recovery run; both paths; thorough adds double faults and a second reverted aspect; every history ends with recovery runs compared with a fresh generation; non-trivial = all; distinct = history; the same in Zod mode; an immutable cache record; `init` with a write fault; crash points (the process killed by a file-size limit of 0 / 400 / 1500 bytes inside a write, thorough also 100 / 900) followed by a plain run",
             exhaustive={"quick": True, "thorough": True},
             exhaustive_scope={"quick": "all single-write fault positions x {first run, run after edit, edit reverted} x {cli, build} x {viz off, on}", "thorough": "same + double faults"},
         ),
@@ -254,14 +254,14 @@ def _pspecs():
             assumptions=FS_ASSUME + ["OutputManager's per-run managed_files set only contains names the run itself wrote", "directories are created only along the output path"],
             rule="output directory beside / nested inside / deep below / outside the project, relative and absolute, pre-populated with 14 foreign names close to the reserved ones "
                  "(incl. a sub-directory with a types.ts) and 5 reserved decoys; sequences of generate / generate --visualize-deps / build-script runs / init (tauri.conf.json and custom file) / runs after all commands were removed; "
-                 "recursive hash+mtime snapshot of the whole sandbox before and after every action; non-trivial = all; distinct = (layout, path kind, mode, sequence, seed)",
+                 "recursive hash+mtime snapshot of the whole sandbox before and after every action; non-trivial = all; distinct = (layout, path kind, mode, sequence, seed); further layouts (directory names with a backslash / spaces / `./x/./y/`), a blocked write probe, a foreign directory called `.typecache`, `init` with a named configuration document, user files that look generated or carry the tool's header, every sequence of up to three actions over {generate, build, generate --visualize-deps, touch a source, drop the commands, doctored cache record, blocked / unblocked probe, .typecache directory} ending in a run (thorough: all 273; quick: one in ten), an output flag spelled like the default",
             exhaustive={"quick": False, "thorough": False},
         ),
         "C08": dict(
             cases=pcases.cases_c08, theorems="Typegen.Theorems.C08",
             trusted_base=[LEAN_TB, PROC_TB, "tg-extract (syn) re-reads the *HashData field lists from src/build/generation_cache.rs on every run; the theorem C08_hashedFields_cover is re-checked against them"],
             assumptions=FS_ASSUME + ["one representative edit per output-affecting edit class (31 classes + event on/off + commands on/off)", "the hash function is injective on the hashed view (collisions are outside the model)"],
-            rule="histories [run, edit a, run] for every edit class a (incl. non-`pub` field, visibility, async), [setting on, run, setting off + edit, run, setting on, run] for the five settings, [run, delete f, run] for every generated file and the cache record, on both paths; [run, edit a, run, edit b, run] for ordered pairs (quick: every 7th pair rotating with the seed; thorough: all 552 + reverted pairs on the build path); "
+            rule="histories [run, edit a, run] for every edit class a (incl. non-`pub` field, visibility, async), [setting on, run, setting off + edit, run, setting on, run] for the five settings, every sequence of up to three steps over {run, forced run, edit, revert, lose types.ts, lose the record, run with a write fault} followed by a run (thorough: all; quick: one in five rotating with the seed), forced runs between an edit and its revert, silent attribute edits (harmless today), [run, delete f, run] for every generated file and the cache record, on both paths; [run, edit a, run, edit b, run] for ordered pairs (quick: every 7th pair rotating with the seed; thorough: all 552 + reverted pairs on the build path); "
                  "after every successful run the output is compared byte-wise (timestamp line ignored) with a forced generation into an empty directory; non-trivial = history with >=2 steps; distinct = history",
             exhaustive={"quick": False, "thorough": True},
             exhaustive_scope={"thorough": "all single edits and ordered pairs of the 24 edit classes"},
